@@ -147,6 +147,20 @@ pub fn generate(ch: &mut Chooser, o: &NetOpts) -> NetPlan {
             }
         }
     }
+    // the path trace option: off everywhere, on everywhere, or per node
+    match ch.weighted(S_CFG, &[2, 1, 1]) {
+        1 => {
+            for nd in nodes.iter_mut() {
+                nd.path_trace = true;
+            }
+        }
+        2 => {
+            for nd in nodes.iter_mut() {
+                nd.path_trace = ch.boolean(S_CFG);
+            }
+        }
+        _ => {}
+    }
     // BMCA phases: independent per node, or all nodes in lock-step (their BMCA runs coincide and the
     // tape orders them), or at the extremes of the interval
     match ch.weighted(S_CFG, &[4, 1, 1]) {
@@ -225,7 +239,7 @@ pub fn describe(plan: &NetPlan) -> serde_json::Value {
         "segments": plan.seg_delay.iter().map(|(d,j)| json!({"delay_us": (*d / US) as u64, "jitter_us": (*j / US) as u64})).collect::<Vec<_>>(),
         "nodes": plan.nodes.iter().map(|n| json!({
             "id": Pid::new(n.id,0).short(), "p1": n.priority1, "class": n.class, "acc": n.accuracy, "var": n.variance, "p2": n.priority2,
-            "slave_only": n.slave_only, "ports": n.ports.iter().map(|p| p.segment).collect::<Vec<_>>(), "p2p_ports": n.ports.iter().map(|p| p.p2p).collect::<Vec<_>>(), "announce_logs": n.ports.iter().map(|p| p.announce_log).collect::<Vec<_>>(),
+            "slave_only": n.slave_only, "path_trace": n.path_trace, "ports": n.ports.iter().map(|p| p.segment).collect::<Vec<_>>(), "p2p_ports": n.ports.iter().map(|p| p.p2p).collect::<Vec<_>>(), "announce_logs": n.ports.iter().map(|p| p.announce_log).collect::<Vec<_>>(),
             "drift_ppm": n.drift_ppt as f64 / 1e6, "timer_skew_ppm": n.timer_skew_ppt as f64 / 1e6,
             "bmca_period_delta_ms": (n.bmca_period_delta / MS as i128) as i64, "bmca_phase_pm": n.bmca_phase_pm,
         })).collect::<Vec<_>>(),
